@@ -56,9 +56,9 @@ func checkC02(s *sim.Sim, o *lookupObs) {
 
 	// (a)/(b): convergence in the idealised universes
 	if !cancelled && (o.cfg.Universe == "full" || o.cfg.Universe == "kbucket") {
-		global := simnet.IDs(simnet.Nearest(real, o.keyKad, K))
 		switch o.cfg.Universe {
 		case "full":
+			global := simnet.IDs(simnet.Nearest(real, o.keyKad, K))
 			same := len(global) == len(res)
 			for i := 0; same && i < len(res); i++ {
 				same = res[i] == global[i]
@@ -67,8 +67,15 @@ func checkC02(s *sim.Sim, o *lookupObs) {
 				s.Violate("converge-full", "every peer knows the whole network, yet lookup returned [%s] instead of the K globally nearest [%s]", names(u, res), names(u, global))
 			}
 		case "kbucket":
-			if len(res) == 0 || res[0] != global[0] {
-				s.Violate("converge-nearest", "k-bucket-complete network, yet the first returned peer is %s, globally nearest is %s (result [%s])", firstName(u, res), u.Name(global[0]), names(u, res))
+			// only the nearest is needed: linear scan (the deep-path universes are big)
+			g0 := real[0]
+			for _, p := range real[1:] {
+				if p.Kad.Xor(o.keyKad).Less(g0.Kad.Xor(o.keyKad)) {
+					g0 = p
+				}
+			}
+			if len(res) == 0 || res[0] != g0.ID {
+				s.Violate("converge-nearest", "k-bucket-complete network, yet the first returned peer is %s, globally nearest is %s (result [%s])", firstName(u, res), g0.Name, names(u, res))
 			}
 		}
 		s.NonTrivial = len(v.queried) >= 2
